@@ -28,19 +28,36 @@ def build(name, harness_src, repo_sources, deps=()):
                              deps=["harness/sched/sched.h", "harness/sched/remap.h", "harness/painted.h"] + list(deps))
 
 
-def run_batch(binary, lines, timeout=900, max_restarts=40):
-    """returns list of Run (same order as lines); runs not executed because of too many crashes have status None"""
+def _text(x):
+    if x is None:
+        return ""
+    return x.decode("utf-8", "replace") if isinstance(x, (bytes, bytearray)) else x
+
+
+def run_batch(binary, lines, timeout=900, max_restarts=40, chunk=1500, _single=False):
+    """returns list of Run (same order as lines); runs not executed because of too many crashes have status None.
+    The lines are fed to the harness in chunks (one process per chunk, `timeout` seconds each).  A chunk that does not finish in
+    time is cut at the execution in progress: that execution is run once more on its own (a loaded machine is not a hang); if it
+    does not finish either its status is `hang`."""
     runs = [Run(l) for l in lines]
     start = 0
     restarts = 0
     env = dict(os.environ)
     env.update(lib.ASAN_ENV)
     while start < len(runs) and restarts <= max_restarts:
-        p = subprocess.run([binary], input="\n".join(r.line for r in runs[start:]) + "\n", stdout=subprocess.PIPE,
-                           stderr=subprocess.PIPE, text=True, timeout=timeout, env=env)
-        out = p.stdout.split("\n")
+        stop = min(len(runs), start + chunk)
+        timed_out = False
+        try:
+            p = subprocess.run([binary], input="\n".join(r.line for r in runs[start:stop]) + "\n", stdout=subprocess.PIPE,
+                               stderr=subprocess.PIPE, text=True, timeout=timeout, env=env)
+            stdout, stderr, rc = p.stdout, p.stderr, p.returncode
+        except subprocess.TimeoutExpired as e:
+            stdout, stderr, rc, timed_out = _text(e.stdout), _text(e.stderr), -9, True
+        out = stdout.split("\n")
+        if timed_out and out and not out[-1].endswith("\n"):
+            out = out[:-1]          # a partial last line
         k = start
-        cur = runs[k] if k < len(runs) else None
+        cur = runs[k] if k < stop else None
         ended = True
         for l in out:
             if cur is None:
@@ -52,26 +69,42 @@ def run_batch(binary, lines, timeout=900, max_restarts=40):
                 cur.status = l[4:].strip()
                 ended = True
                 k += 1
-                cur = runs[k] if k < len(runs) else None
+                cur = runs[k] if k < stop else None
             elif l.startswith("pt ") or l.startswith("pw "):
                 t = l.split()
-                cur.points.append((int(t[1]), [int(x) for x in t[3:]]))
+                try:
+                    cur.points.append((int(t[1]), [int(x) for x in t[3:]]))
+                except (ValueError, IndexError):
+                    continue
                 if l.startswith("pw "):
                     cur.events.append(l)
             else:
                 cur.events.append(l)
-        if cur is not None and not ended:
+        if timed_out and cur is not None:
+            # the execution in progress when the time ran out: once more, alone
+            if _single:
+                cur.status = "hang"
+                cur.stderr = "no `end` line within %d s" % timeout
+            else:
+                again = run_batch(binary, [cur.line], timeout=max(120, timeout // 4), max_restarts=0, chunk=1, _single=True)[0]
+                if again.status is None:
+                    again.status = "hang"
+                    again.stderr = "no `end` line within %d s" % max(120, timeout // 4)
+                runs[k] = again
+            k += 1
+            restarts += 1
+        elif cur is not None and not ended:
             # the process died inside run k (crash, sanitizer abort, library assertion)
             if cur.status is None:
                 cur.status = "abort"
-                err = p.stderr
+                err = stderr
                 cur.stderr = err if len(err) < 3000 else err[:1500] + "\n...\n" + err[-1500:]
                 k += 1
             restarts += 1
-        elif k < len(runs) and p.returncode != 0:
+        elif k < stop and rc != 0:
             # the process exited right after a completed run (deadlock / hang exit): resume with the next run
             restarts += 1
-        elif k < len(runs):
+        elif k < stop:
             # process ended cleanly but lines remain (should not happen)
             runs[k].status = "abort"
             runs[k].stderr = "harness stopped reading input"
